@@ -216,6 +216,56 @@ Inv_C15 == RateOk =>
       Y == RateFn(M.kind, ModelP(M), TeamsVals(last.teams), OutcomeVals(LCall), TrueEffTau(LCall), TrueEffLimit(LCall))
   IN  \A s \in AllSlots(last) : Y[s[1]][s[2]].mu = last.X[s[1]][s[2]].mu /\ Y[s[1]][s[2]].sigma = last.X[s[1]][s[2]].sigma
 
+\* ---- relational theorems of the rule, checked on the specification itself at 1e-28: each recomputes ONE sibling
+\*      presentation of the last game.  They cross-check the transcription in Update.tla by facts that were not
+\*      used to write it (and state C04, C16, C19 at the design level).
+Exact(a, b) == RWithin(a, b, "1E-28" ** ("1" ++ RAbs(a)))
+LT == TeamsVals(last.teams)
+LV == OutcomeVals(LCall)
+LN == Len(LT)
+Rev(sq) == [i \in 1..Len(sq) |-> sq[Len(sq) + 1 - i]]
+NoTies(v) == \A i, j \in 1..Len(v) : i # j => ~ValEq(v[i], v[j])
+
+\* C04: teams and members listed in reverse order (outcome alongside) - the same posterior for every player
+Inv_C04 == RateOk /\ (IsPart(last.model.kind) => NoTies(LV)) =>
+  LET M == last.model
+      T2 == [i \in 1..LN |-> Rev(LT[LN + 1 - i])]
+      Y == RateFn(M.kind, ModelP(M), T2, Rev(LV), EffTau(M, LCall), EffLimit(M, LCall))
+  IN  \A s \in AllSlots(last) :
+        LET y == Y[LN + 1 - s[1]][Len(LT[s[1]]) + 1 - s[2]]  x == last.X[s[1]][s[2]]
+        IN  Exact(x.mu, y.mu) /\ Exact(x.sigma, y.sigma)
+
+\* C16: everything multiplied by 3 (values, beta, tau) multiplies the posterior by 3 under PL and BT;
+\*      7.5 added to every mu (equal team sizes) adds 7.5 to every posterior mu and leaves sigma, under every model
+Inv_C16 == RateOk /\ last.model.gamma \in {"default", "one", "zero", "big"} =>
+  LET M == last.model
+      k == "3"
+      d == "7.5"
+      P3 == [beta |-> M.beta ** k, kappa |-> M.kappa, gamma |-> M.gamma]
+      T3 == [i \in 1..LN |-> [j \in 1..Len(LT[i]) |-> [mu |-> LT[i][j].mu ** k, sigma |-> LT[i][j].sigma ** k]]]
+      Td == [i \in 1..LN |-> [j \in 1..Len(LT[i]) |-> [mu |-> LT[i][j].mu ++ d, sigma |-> LT[i][j].sigma]]]
+      equal == \A i \in 1..LN : Len(LT[i]) = Len(LT[1])
+      Y3 == RateFn(M.kind, P3, T3, LV, EffTau(M, LCall) ** k, EffLimit(M, LCall))
+      Yd == RateFn(M.kind, ModelP(M), Td, LV, EffTau(M, LCall), EffLimit(M, LCall))
+  IN  /\ (~IsTM(M.kind) => \A s \in AllSlots(last) :
+             Exact(last.X[s[1]][s[2]].mu ** k, Y3[s[1]][s[2]].mu) /\ Exact(last.X[s[1]][s[2]].sigma ** k, Y3[s[1]][s[2]].sigma))
+      /\ (equal => \A s \in AllSlots(last) :
+             Exact(last.X[s[1]][s[2]].mu ++ d, Yd[s[1]][s[2]].mu) /\ Exact(last.X[s[1]][s[2]].sigma, Yd[s[1]][s[2]].sigma))
+
+\* C19: on two teams Bradley-Terry with partial pairing is Bradley-Terry with full pairing
+Inv_C19 == RateOk /\ last.model.kind = "BTP" /\ LN = 2 =>
+  LET M == last.model
+      Y == RateFn("BTF", ModelP(M), LT, LV, EffTau(M, LCall), EffLimit(M, LCall))
+  IN  \A s \in AllSlots(last) : Y[s[1]][s[2]].mu = last.X[s[1]][s[2]].mu /\ Y[s[1]][s[2]].sigma = last.X[s[1]][s[2]].sigma
+
+\* C03: the same weak order written as its competition ranks gives the identical result
+Inv_C03 == RateOk =>
+  LET M == last.model
+      cr == CompRank(LV)
+      canon == [i \in 1..LN |-> IntVal(cr[i])]
+      Y == RateFn(M.kind, ModelP(M), LT, canon, EffTau(M, LCall), EffLimit(M, LCall))
+  IN  \A s \in AllSlots(last) : Y[s[1]][s[2]].mu = last.X[s[1]][s[2]].mu /\ Y[s[1]][s[2]].sigma = last.X[s[1]][s[2]].sigma
+
 \* the model objects never change (action property)
 ModelsNeverChange == [][models' = models]_vars
 
